@@ -48,6 +48,11 @@ def generate(rng: random.Random, tier: str):
             n = rng.choice([9, 11])
             cases.append({'kind': 'slice', 'shape': [n, n, n] if ang != 180.0 else [n, rng.choice([7, 8, 9]), rng.choice([6, 9])], 'profile': rng.choice(['smoothed', 'gauss', 'rect']),
                           'fwhm': 1.0, 'rotation': 'axis', 'axis_spec': [ax, ang], 'shift': rng.choice([0.0, 1.0]), 'seed': rng.randrange(1 << 30)})
+    # slices whose support partly leaves the volume along the normal (large shift): the row sum is the fraction of the weights in view
+    for _ in range(40 if thorough else 8):
+        n = rng.randint(5, 9)
+        cases.append({'kind': 'edge', 'shape': [n, rng.randint(4, 7), rng.randint(4, 7)], 'profile': rng.choice(['smoothed', 'gauss', 'rect']),
+                      'fwhm': rng.choice([2.0, 3.0, 4.0]), 'shift': rng.choice([-1, 1]) * rng.choice([n // 2, n // 2 - 1, n // 2 + 1, n // 2 - 0.5]), 'seed': rng.randrange(1 << 30)})
     for _ in range(300 if thorough else 60):
         dim = rng.choice([2, 3])
         cases.append({'kind': 'grid', 'dim': dim, 'mode': rng.choice(['bilinear', 'bilinear', 'nearest']), 'align': rng.random() < 0.5,
@@ -325,5 +330,56 @@ def run_grid(case, drv) -> Outcome:
                    branches=[f'{dim}D', case['mode'], f'align:{case["align"]}', f'pad:{case["padding"]}', layout, case['grid_kind']], sample=case)
 
 
+def run_edge(case, drv) -> Outcome:
+    """identity rotation, the slice partly outside the volume: the value of a constant volume at an interior slice pixel is the fraction
+    of the pixel's weights that lies inside the volume (zero padding) - correspondence with `M.fractionInView` on the candidate points
+    the operator enumerates (ray offsets -w..w, floor and floor + 1 along every axis), and the property-level value"""
+    import mrpro
+    from mrpro.data import SpatialDimension
+
+    shape = case['shape']
+    prof = Probe(make_profile(case['profile'], case['fwhm']))
+    cfg = f'volume {shape} profile {case["profile"]} fwhm {case["fwhm"]} identity rotation shift {case["shift"]}'
+    st, op = call(lambda: mrpro.operators.SliceProjectionOp(SpatialDimension(*shape), slice_rotation=None, slice_shift=case['shift'], slice_profile=prof))
+    if st != 'ok':
+        return Outcome(key=('edge-ctor', cfg), corr=f'SliceProjectionOp raises {op} for {cfg}')
+    ray_calls = [c for c in prof.calls if c[0].ndim == 4]
+    w_half = (ray_calls[0][0].shape[-1] - 1) // 2 if ray_calls else 0
+    pz = shape[0] / 2 - 0.5 + case['shift']
+    # candidates along the normal as the operator enumerates them; the in-plane neighbour at +1 has weight 0 for a pixel on the lattice
+    zs = [math.floor(pz + k) + o for k in range(-w_half, w_half + 1) for o in (0, 1)]
+    wz = prof.inner(torch.tensor([pz - z for z in zs], dtype=torch.float32)).double().tolist()
+    wts, mask = [], []
+    for z, wv in zip(zs, wz, strict=True):
+        for oy in (0, 1):
+            for ox in (0, 1):
+                wts.append(wv if (oy, ox) == (0, 0) else 0.0)
+                mask.append(0 <= z < shape[0])  # interior pixel: the in-plane neighbours are inside
+    viol = corr = None
+    (s,) = op(torch.ones(shape))
+    mx = max(shape)
+    y0, x0 = -((shape[1] - mx) // 2), -((shape[2] - mx) // 2)
+    got = float(s[..., y0 + 1, x0 + 1].reshape(-1)[0])
+    if sum(wts) > 0:
+        m = drv.call({'op': 'fraction_in_view', 'w': [frac_str(v) for v in wts], 'mask': mask})
+        frac = float(Fraction(m['fraction']))
+        # unique voxels in view carry the (de-duplicated) weights: row sum = frac * s / (s + 1e-6)
+        s_in = sum({z: wv for z, wv in zip(zs, wz, strict=True) if 0 <= z < shape[0]}.values())
+        want = frac * s_in / (s_in + 1e-6) if s_in > 0 else 0.0
+        if not math.isfinite(got) or abs(got - want) > 2e-4:
+            corr = f'{cfg}: a constant volume gives {got:.6f} at an interior slice pixel, the model of the fraction in view gives {want:.6f} (fraction {frac:.6f}, as shipped {float(Fraction(m["shipped"])):.6f})'
+        # property level: zero padding - the profile mass on the voxels inside over the mass on all voxels the ray reaches
+        uniq = {z: wv for z, wv in zip(zs, wz, strict=True)}
+        # (every voxel is reached twice except the two ends of the ray, which carry almost no weight)
+        zp = sum(wv for z, wv in uniq.items() if 0 <= z < shape[0]) / max(1e-30, sum(uniq.values()))
+        if not math.isfinite(got) or abs(got - zp) > 0.03:
+            viol = {'signature': 'slice:zero-padding', 'what': f'{cfg}: a constant volume gives {got:.4f} at an interior slice pixel; with zero padding outside the volume the '
+                                                               f'profile-weighted average is {zp:.4f}'}
+    return Outcome(key=('edge', tuple(shape), case['profile'], case['fwhm'], case['shift']), corr=corr, viol=viol, branches=[f'edge:{case["profile"]}', f'edge-w:{w_half}'],
+                   sample={**case, 'w_half': w_half, 'value': got})
+
+
 def run(case, drv) -> Outcome:
+    if case['kind'] == 'edge':
+        return run_edge(case, drv)
     return run_slice(case, drv) if case['kind'] == 'slice' else run_grid(case, drv)
